@@ -79,7 +79,10 @@ HEAD = """(* ParamWritesSpec.v - the places where a function of in_toto writes t
    receivers being built or loaded (Key, Metablock, Envelope, checkResult, Set), SubstituteParameters writing into the
    copies it makes first, VerifySublayouts replacing a sublayout by its summary in the map it was given by InTotoVerify,
    verifyMatchRule normalising the rule map returned by UnpackRule, recordArtifacts using its own visited set,
-   InTotoRecordStop filling the link it loaded.  None of them reaches an object of the CALLER of the verification entry
+   InTotoRecordStop filling the link it loaded; since the inventory follows values into composite literals (round 11:
+   a table built from an item's rules is a way to reach them) also fields of objects the function has just allocated
+   from a literal that mentions a parameter (InTotoRecordStart's linkMb, checkRequiredJSONFields' field, loadEnvelope's
+   e).  None of them reaches an object of the CALLER of the verification entry
    points.  Regenerate with tools/repin.py only after reading a new entry. *)
 From IT Require Import model.Base.
 
